@@ -11,3 +11,32 @@ func init() {
 		return &Closure{native: func(in *Interp, args []Value) Value { return nil }}
 	})
 }
+
+// (*protocompile.Compiler).Compile: the compiler itself (lexer, goyacc tables, linker, options interpreter — all
+// reflection heavy) cannot run in the engine and is outside every claim. If the package under test defines a
+// harness function
+//
+//	func vfModelCompile(c *protocompile.Compiler, ctx context.Context, files []string) (linker.Files, error)
+//
+// the call is dispatched to it: the harness models the compiler's *observable protocol* (open every file of the
+// closure through c.Resolver, report warnings through c.Reporter, return stub linker.Files in request order) from
+// the same workspace description from which it generated the real source texts. Natively (replay, conformance) the
+// real compiler runs on those texts, which validates the model. Without such a function the call aborts the path.
+func init() {
+	modelPkgs := []string{
+		"github.com/bufbuild/buf/private/bufpkg/bufimage",
+	}
+	reg("(*github.com/bufbuild/protocompile.Compiler).Compile", func(in *Interp, fn *ssa.Function, args []Value) Value {
+		for _, path := range modelPkgs {
+			pkg := in.prog.ImportedPackage(path)
+			if pkg == nil {
+				continue
+			}
+			if model := pkg.Func("vfModelCompile"); model != nil {
+				return in.call(model, args, nil)
+			}
+		}
+		in.abort("protocompile.Compiler.Compile: no harness model (vfModelCompile) in the package under test")
+		return nil
+	})
+}
